@@ -592,7 +592,9 @@ func (r *chunkReader) ReadAt(data []byte, off int64) (readBytes int, err error) 
 			}
 		}
 
-		readBytes += copy(data[readBytes:], buffer.Bytes()[offset:])
+		if offset < int64(len(buffer.Bytes())) { // an offset past the end of a short last leaf reads nothing
+			readBytes += copy(data[readBytes:], buffer.Bytes()[offset:])
+		}
 		buffer.Unpin()
 
 		if !ok && !fromCache {
